@@ -76,6 +76,11 @@ NameCases ==
     {TCase("User", [UserMin EXCEPT !.name = <<n>>], "user.name") : n \in Names}
     \cup {TCase("User", [UserMin EXCEPT !.displayName = <<n>>], "user.displayName") : n \in StraddleThin \cup LengthNames}
     \cup {TCase("Rp", [RpMin EXCEPT !.name = <<n>>], "rp.name") : n \in StraddleThin \cup LengthNames \cup SpecialNames}
+    \* a name is a name whatever else in the entity holds the same bytes (the user handle, the other name)
+    \cup {TCase("User", [UserMin EXCEPT !.id = w, !.name = <<w>>], "user.name-equals-id") : w \in {AsciiPattern(7, n) : n \in {1, 16, 32, 64}}}
+    \cup {TCase("User", [UserMin EXCEPT !.id = AsciiPattern(7, 64), !.displayName = <<AsciiPattern(7, n)>>], "user.displayName-truncated-to-id") : n \in {64, 65, 80}}
+    \cup {TCase("User", [UserMin EXCEPT !.name = <<w>>, !.displayName = <<w>>], "user.names-equal") : w \in {AsciiPattern(7, 10), AsciiPattern(7, 70)}}
+    \cup {TCase("Rp", [RpMin EXCEPT !.name = <<RpMin.id>>], "rp.name-equals-id")}
     \* inside complete requests
     \cup {SentCase(1, [McReqMin EXCEPT !.user = [UserMin EXCEPT !.name = <<n>>, !.displayName = <<n>>],
                                        !.rp = [RpMin EXCEPT !.name = <<n>>]], "mc.names", F) : n \in StraddleThin}
